@@ -25,6 +25,9 @@ Protected(t) ==
     \* an MSI signed with the extended signature (relic's default) also binds the directory metadata of every stream and
     \* storage: state bits, creation and modification time, class id
     [] t = "msi" -> {"payload", "sigvalue", "sigcontainer", "metadata"}
+    \* a signed disk image binds the fields of its UDIF trailer (fork offsets and lengths, checksums, sector count ...)
+    \* through the code directory's special slot for representation-specific data
+    [] t = "dmg" -> {"payload", "sigvalue", "sigcontainer", "metadata"}
     [] OTHER -> {"payload", "sigvalue", "sigcontainer"}
 
 VARIABLES typ, mutated, kind, verdict   \* verdict: "none" | "accept" | "reject"
